@@ -198,6 +198,55 @@ pub async fn run(out: &mut Out) {
             }
         }
     }
+    // long strings in every length-delimited or terminated field, around the 255 / 256 / 257 boundary and far beyond
+    {
+        for n in [0usize, 1, 254, 255, 256, 257, 300, 600, 4096] {
+            for nul in [true, false] {
+                let tail: &[u8] = if nul { &[0] } else { &[] };
+                // SOCKS4 user id
+                let mut m = vec![4u8, 1, 0, 80, 1, 2, 3, 4];
+                m.extend(std::iter::repeat(b'u').take(n));
+                m.extend_from_slice(tail);
+                feed(out, 0, &m, &mut rng).await;
+                // SOCKS4a host name (ip 0.0.0.1), with a short and with a long user id in front
+                for uid in [1usize, n] {
+                    let mut m = vec![4u8, 1, 0, 80, 0, 0, 0, 1];
+                    m.extend(std::iter::repeat(b'u').take(uid));
+                    m.push(0);
+                    m.extend(std::iter::repeat(b'h').take(n));
+                    m.extend_from_slice(tail);
+                    feed(out, 0, &m, &mut rng).await;
+                }
+                out.stat("long_string_grid");
+            }
+            // SOCKS5 domain / user / password with the largest length bytes and short data behind them
+            for have in [0usize, 1, n.min(255)] {
+                let l = n.min(255) as u8;
+                let mut m = vec![5u8, 1, 0, 5, 1, 0, 3, l];
+                m.extend(std::iter::repeat(b'd').take(have));
+                m.extend_from_slice(&[0, 80]);
+                feed(out, 0, &m, &mut rng).await;
+                let mut m = vec![5u8, 1, 2, 1, l];
+                m.extend(std::iter::repeat(b'u').take(have));
+                m.push(l);
+                m.extend(std::iter::repeat(b'p').take(have));
+                m.extend_from_slice(&[5, 1, 0, 1, 1, 2, 3, 4, 0, 80]);
+                feed(out, 0, &m, &mut rng).await;
+                // the connector side: an upstream's SOCKS5 reply with a domain-typed bound address
+                let mut m = vec![5u8, 0, 0, 3, l];
+                m.extend(std::iter::repeat(b'b').take(have));
+                m.extend_from_slice(&[0, 80]);
+                feed(out, 1, &m, &mut rng).await;
+                feed(out, 10, &m, &mut rng).await;
+            }
+            // HTTP: long request-target, long header name / value, long status text
+            let long = "x".repeat(n);
+            feed(out, 2, format!("CONNECT {}:80 HTTP/1.1\r\nHost: x\r\n\r\n", long).as_bytes(), &mut rng).await;
+            feed(out, 9, format!("CONNECT {}:80 HTTP/1.1\r\n{}: {}\r\n\r\n", long, long, long).as_bytes(), &mut rng).await;
+            feed(out, 3, format!("HTTP/1.1 200 {}\r\n{}: {}\r\n\r\n", long, long, long).as_bytes(), &mut rng).await;
+            feed(out, 8, format!("HTTP/1.1 200 OK\r\nSession-Id: {}\r\n\r\n", "9".repeat(n)).as_bytes(), &mut rng).await;
+        }
+    }
     // RPFM address attributes: every (tag, len) with short and long values
     for tag in 0..=5u8 {
         for len in 0..=255u8 {
